@@ -374,9 +374,13 @@ bloom_filter_alloc<A> bloom_filter_alloc<A>::internal_deserialize_or_wrap(void* 
     return bloom_filter_alloc<A>(num_longs << 6, num_hashes, seed, allocator);
   }
 
+  // a non-empty image has the full preamble followed by the whole bit array, wrapped or not
+  ensure_minimum_memory(length_bytes, PREAMBLE_LONGS_STANDARD * sizeof(uint64_t));
   uint64_t num_bits_set;
   ptr += copy_from_mem(ptr, num_bits_set);
   const bool is_dirty = (num_bits_set == DIRTY_BITS_VALUE);
+  const uint64_t num_bytes = static_cast<uint64_t>(num_longs) << 3;
+  ensure_minimum_memory(end_ptr - ptr, num_bytes);
 
   uint8_t* bit_array;
   uint8_t* memory;
@@ -386,8 +390,6 @@ bloom_filter_alloc<A> bloom_filter_alloc<A>::internal_deserialize_or_wrap(void* 
   } else {
     // allocate memory
     memory = nullptr;
-    const uint64_t num_bytes = num_longs << 3;
-    ensure_minimum_memory(end_ptr - ptr, num_bytes);
     AllocUint8 alloc(allocator);
     bit_array = alloc.allocate(num_bytes);
     if (bit_array == nullptr) {
